@@ -288,14 +288,17 @@ pub fn plan(tier: &str) -> Vec<(Cfg, Vec<Op>)> {
 
 pub fn run(tier: &str, slice: (u64, u64), seed: u64) -> WorkerResult {
     let mut res = WorkerResult::new("waldmg");
-    let values: Vec<u8> = if tier == "quick" { vec![0x01, 0x80, 0xff, 0x00] } else { (1..=255u8).collect() };
+    // thorough: all 255 substitutions on the stores of histories of depth <= 2 and on the special logs, 8 values on the deeper ones
+    let values: Vec<u8> = if tier == "quick" { vec![0x01, 0x80, 0xff, 0x00] } else { vec![0x01, 0x02, 0x10, 0x80, 0xff, 0x00, 0x7f, 0x55] };
+    let all_values: Vec<u8> = (1..=255u8).collect();
     let p = plan(tier);
     let total = p.len() as u64;
     for (j, (cfg, opsq)) in p.iter().enumerate() {
         if (j as u64 + seed) % slice.1 != slice.0 {
             continue;
         }
-        let vs = run_history::<String>(cfg, opsq, &values, None, &mut res);
+        let vals = if tier != "quick" && (opsq.len() <= 2 || opsq.iter().any(|o| matches!(o, Op::Reopen) || matches!(o, Op::Put { k, .. } if *k >= 2))) { &all_values } else { &values };
+        let vs = run_history::<String>(cfg, opsq, vals, None, &mut res);
         if res.samples.len() < 2 {
             res.sample(json!({"cfg": cfg, "history": ops::show_seq::<String>(opsq)}));
         }
@@ -329,9 +332,10 @@ pub fn run(tier: &str, slice: (u64, u64), seed: u64) -> WorkerResult {
     if slice.0 == 0 {
         res.completed.push("crash images with an un-checkpointed tail spanning >= 2 segments (all histories of depth 2 (quick) / 3 over 6 symbols, N in {1,2}, every distinct such image): same damages".to_string());
         res.completed.push(format!(
-            "{total} cleanly closed stores (all histories of depth <= {} over 6 symbols for several N, plus big-record / multi-key-remove / replayed-then-extended logs): every truncation offset of the un-checkpointed tail (scan on and off) and every checksum/payload byte x {} values (scan off)",
+            "{total} cleanly closed stores (all histories of depth <= {} over 6 symbols for several N, plus big-record / multi-key-remove / replayed-then-extended logs): every truncation offset of the un-checkpointed tail (scan on and off) and every checksum/payload byte x {} values (scan off){}",
             if tier == "quick" { 3 } else { 4 },
-            values.len()
+            values.len(),
+            if tier == "quick" { "" } else { "; all 255 values on the stores of depth <= 2 and the special logs" }
         ));
     }
     res
